@@ -253,7 +253,9 @@ func (b *verifB) simpleExpr() {
 
 // typ is a query type (no length parameters).
 func (b *verifB) typ() {
-	switch b.alt(5) {
+	switch b.alt(6) {
+	case 5:
+		b.p("`INT64`")
 	case 0:
 		b.w("INT64")
 	case 1:
@@ -1155,6 +1157,8 @@ func verifFamCreateTable(b *verifB) {
 		case 3:
 			b.w("GENERATED BY DEFAULT AS IDENTITY")
 			if b.opt() {
+				b.p("( )")
+			} else if b.opt() {
 				b.p("(")
 				b.w("BIT_REVERSED_POSITIVE")
 				if b.opt() {
@@ -1624,7 +1628,8 @@ func verifFamSequence(b *verifB) {
 		b.kind = "AlterSequence"
 		b.w("ALTER SEQUENCE")
 		b.path()
-		switch b.alt(4) {
+		k := b.alt(4)
+		switch k {
 		case 0:
 			b.w("SET")
 			b.options()
@@ -1636,6 +1641,11 @@ func verifFamSequence(b *verifB) {
 		default:
 			b.w("RESTART COUNTER WITH")
 			b.p("7")
+		}
+		// a second clause, in the order the implementation reads them
+		if k != 3 && b.opt() {
+			b.w("RESTART COUNTER WITH")
+			b.p("9")
 		}
 	default:
 		b.kind = "DropSequence"
